@@ -77,10 +77,11 @@ func c14SelectorSub() *engine.Sub {
 	data := selectorData()
 	return &engine.Sub{
 		Name: "selector-text",
+		Repeat: true,
 		Rule: `every string over {. [ ] " ? : - 0 1 a _ \ * space} up to the length bound offered to selector.Parse; for every accepted string: printing reproduces the text (up to '?' after an identity dot), the printed text parses to the same segments with identical Select results on 33 values, and every segment re-parsed alone has the same meaning; non-trivial = accepted strings`,
-		Bound: func(t string) string { return fmt.Sprintf("all strings of length <=%d over 14 symbols", tierN(t, 5, 7)) },
+		Bound: func(t string) string { return fmt.Sprintf("all strings of length <=%d over 14 symbols", tierN(t, 5, 8)) },
 		Gen: func(tier string, emit func(any) bool) {
-			n := tierN(tier, 5, 7)
+			n := tierN(tier, 5, 8)
 			// strings not starting with '.' are rejected by the first test of Parse; they are
 			// still enumerated up to length 3 to confirm that, and beyond that only '.'-prefixed
 			// strings are generated (the others share the same first-character rejection).
@@ -171,7 +172,7 @@ func (c *c14PolCase) Weight() int { return len(c.JSON) }
 
 func c14Args(depth int) []string {
 	// argument kinds: string (selector-like, pattern-like, operator-like), list, int, map, null
-	base := []string{`"."`, `".a"`, `".a?"`, `".?"`, `"a*"`, `"\\"`, `"x"`, `1`, `null`, `{}`, `[]`, `true`}
+	base := []string{`"."`, `".a"`, `".a?"`, `".?"`, `"a*"`, `"\\"`, `"\\**"`, `"a**b"`, `"\\\\*"`, `"x"`, `1`, `null`, `{}`, `[]`, `true`}
 	if depth > 0 {
 		base = append(base, c14Statements(depth-1)...)
 		// a list of statements (operand of and/or)
@@ -234,6 +235,7 @@ func pick(s []string, n int) []string {
 func c14PolicySub() *engine.Sub {
 	return &engine.Sub{
 		Name: "policy-ipld-roundtrip",
+		Repeat: true,
 		Rule: "policies = lists of <=2 statements built from every operator (11 + one unknown) x arity 1..4 x argument kinds (selector-like/pattern-like strings, int, null, map, list, nested statements), offered as DAG-JSON text to policy.FromDagJson and as a node to policy.FromIPLD; rejected, or ToIPLD(FromIPLD(n)) deep-equals n up to selector normalisation and String() does not fail; non-trivial = accepted",
 		Bound: func(t string) string { return fmt.Sprintf("statement nesting depth <=%d, policies of 0..2 statements", tierN(t, 1, 2)) },
 		Gen: func(tier string, emit func(any) bool) {
